@@ -86,7 +86,59 @@ def correspondence(rep, ctx):
     bad = run_sequences(rep, ctx, "c08-float", nseq, 12, hp=False)
     bad += run_sequences(rep, ctx, "c08-hp", max(12, nseq // 5), 12, hp=True)
     bad += duplicate_matrix(rep, ctx)
+    bad += dataset_mismatch(rep, ctx)
     rep.notes["mismatches"] = bad
+
+
+def dataset_mismatch(rep, ctx):
+    """"Combining inventories of different datasets is refused" — also when the two datasets carry the same NAME but not
+    the same data (one trailing entry dropped; or other atomic masses), in both operand orders, both classes, also as the
+    last step of a longer expression; equal datasets (a fresh load) still combine"""
+    import numpy as np
+    rd = ctx.rd
+    dd = rd.DEFAULTDATA
+    bad = 0
+
+    def obj(rows):
+        a = np.empty(len(rows), dtype=object)
+        for i_, x in enumerate(rows):
+            a[i_] = list(x)
+        return a
+    prog_t = [list(x) for x in dd.progeny]
+    bfs_t = [list(x) for x in dd.bfs]
+    modes_t = [list(x) for x in dd.modes]
+    k_t = next(i_ for i_, p_ in enumerate(prog_t) if len(p_) >= 2 and p_[-1] == "SF")
+    prog_t[k_t], bfs_t[k_t], modes_t[k_t] = prog_t[k_t][:-1], bfs_t[k_t][:-1], modes_t[k_t][:-1]
+    other = rd.decaydata.DecayData(dd.dataset_name, obj(bfs_t), dd.float_year_conv, dd.hldata, obj(modes_t), dd.nuclides,
+                                   obj(prog_t), dd.scipy_data, dd._sympy_data, dd._sympy_year_conv)
+    fresh = rd.decaydata.load_dataset(dd.dataset_name, load_sympy=True)
+    for C in (rd.Inventory, rd.InventoryHP):
+        a = C({"H-3": 3, "C-14": 5}, "num", True, dd)
+        b = C({"H-3": 1, "Co-60": 2}, "num", True, other)
+        f = C({"H-3": 1, "Co-60": 2}, "num", True, fresh)
+        for label, fn in (("a + b", lambda: a + b), ("b + a", lambda: b + a), ("a - b", lambda: a - b), ("b - a", lambda: b - a),
+                          ("(a * 2 - a) + b / 4", lambda: (a * 2 - a) + b / 4)):
+            rep.case(("dataset-mismatch", C.__name__, label))
+            rep.dist("dataset-mismatch")
+            try:
+                res = fn()
+                bad += 1
+                rep.violation("failing-input", f"{C.__name__}: {label} with a on the default dataset and b on a dataset of the same name "
+                              f"whose data differ (a.decay_data != b.decay_data is {a.decay_data != b.decay_data}) is accepted: "
+                              f"{dict(res.contents)!r}", {"case": label}, True)
+            except ValueError:
+                pass
+            except Exception as e:  # noqa: BLE001
+                bad += 1
+                rep.violation("failing-input", f"{C.__name__}: {label} on mismatching datasets raised {type(e).__name__}: {e}", {"case": label}, True)
+        try:
+            res = a + f
+            if float(res.contents["H-3"]) != 4.0:
+                raise AssertionError(f"H-3 = {res.contents['H-3']!r}")
+        except Exception as e:  # noqa: BLE001
+            bad += 1
+            rep.violation("failing-input", f"{C.__name__}: a + f with f on a fresh load of the same dataset: {type(e).__name__}: {e}", {"case": "equal datasets"}, True)
+    return bad
 
 
 def duplicate_matrix(rep, ctx):
